@@ -200,6 +200,15 @@ fn is_special_key(key: &str) -> bool {
         || key == "node_ref"
 }
 
+/// Whether text children of this element are HTML-escaped. Must agree with
+/// `ElementType::ESCAPE_CHILDREN` of the element in tachys.
+fn escapes_children(el_name: &str) -> bool {
+    el_name != "script"
+        && el_name != "style"
+        && el_name != "textarea"
+        && el_name != "noscript"
+}
+
 enum Item<'a, T> {
     Node(&'a Node<T>, bool),
     ClosingTag(String),
@@ -349,9 +358,7 @@ fn inert_element_to_tokens(
                     Node::Element(node) => {
                         let self_closing = is_self_closing(node);
                         let el_name = node.name().to_string();
-                        let escape = el_name != "script"
-                            && el_name != "style"
-                            && el_name != "textarea";
+                        let escape = escapes_children(&el_name);
 
                         // opening tag
                         html.push('<');
@@ -604,9 +611,7 @@ fn node_to_tokens(
         Node::Element(el_node) => {
             if !top_level && is_inert {
                 let el_name = el_node.name().to_string();
-                let escape = el_name != "script"
-                    && el_name != "style"
-                    && el_name != "textarea";
+                let escape = escapes_children(&el_name);
                 inert_element_to_tokens(node, escape, global_class)
             } else {
                 element_to_tokens(
